@@ -19,7 +19,7 @@ RULE_TEXT = ('runs = a sweep over every place (24) x every driver kind (6) with 
              'parts from 5 source kinds, optional cd before the use, optional setup stdin for the ATC. Non-trivial = the '
              'process under observation was spawned and compared with the model; distinct = (place, driver kind, chain '
              'depth, multiset of argument kinds, stdin source kinds, exit-code class).')
-REACH_PROBES = ['second_use_of_program_symbol', 'setup_stdin_from_program', 'place_act_command_line', 'place_act_file_interpreter', 'place_act_source_interpreter', 'place_act_null',
+REACH_PROBES = ['after_polluting_case_in_a_suite', 'second_use_of_program_symbol', 'setup_stdin_from_program', 'place_act_command_line', 'place_act_file_interpreter', 'place_act_source_interpreter', 'place_act_null',
                 'place_run', 'place_file_stdout_from', 'place_exit_code_from', 'place_stdout_from', 'place_transformer',
                 'place_matcher', 'driver_sys', 'driver_python', 'driver_exe', 'driver_exe_rel', 'driver_shell',
                 'driver_sym', 'chain_depth_2', 'chain_depth_3', 'stdin_accumulated', 'stdin_from_program',
@@ -314,7 +314,11 @@ def build(seed, tier, g, place, driver, exit_code=None, sweep=False, capture=Fal
     # the same program symbol used a second time, later, with other arguments: nothing of the first use may stick
     second_use = bool(m_ and m_.get('use_symbol') and not m_['shell'] and ph != 'cleanup' and g.random() < 0.5 and
                       pkind not in ('act_file_interpreter', 'act_source_interpreter'))
+    # the case runs as the second case of a suite, after a case that sets stdin / env / cwd / timeout and defines program
+    # symbols of the same names: the process must still get exactly what THIS case denotes
+    after_polluter = (not sweep) and g.random() < 0.2
     plan = {'format': 1, 'property': PROPERTY, 'engine': 'c10', 'run_seed': seed, 'tier': tier, 'second_use': second_use,
+            'after_polluter': after_polluter,
             'knobs': {'mem_buff_size': g.choice([1, 5, 8192])}, 'entry': 'cli', 'kind': 'denotation',
             'place': pkind, 'phase': ph, 'tree': tree, 'procs': procs, 'setup_stdin': setup_stdin,
             'cd': cd, 'transform': transform, 'capture': capture, 'sweep': sweep,
@@ -479,11 +483,23 @@ def execute(plan, scratch):
     w.write('home/data.txt', 'data line 1\ndata line 2\n')
     os.makedirs(os.path.join(w.home, 'hd'))
     sim = kernel.Sim(plan, w)
+    polluted = plan.get('after_polluter')
+    if polluted:
+        w.write('home/polluter.case', POLLUTER)
+        w.write('home/s.suite', '[cases]\npolluter.case\nt.case\n')
     with patches.installed(sim):
-        res = host.run_cli(sim, ['t.case'])
+        if polluted:
+            res = host.run_cli(sim, ['suite', 's.suite'], tap=True)
+            ident = ''
+            for line in res['stdout'].split('\n'):
+                if 't.case' in line and line.strip().split():
+                    ident = line.strip().split()[-1]
+            res['stdout'] = ident + '\n'
+        else:
+            res = host.run_cli(sim, ['t.case'])
         leftover = w.tmp_entries()
         digest = sim.digest()
-    sbx = sim.sandboxes[0] if sim.sandboxes else ''
+    sbx = sim.sandboxes[-1] if sim.sandboxes else ''
 
     def sub(x):
         if isinstance(x, str):
@@ -499,6 +515,21 @@ def execute(plan, scratch):
     _probes(plan, hist)
     w.destroy()
     return hist
+
+
+POLLUTER = '''[setup]
+stdin = "polluter-stdin"
+env POLLUTED = yes
+dir -rel-act pdir
+cd -rel-act pdir
+timeout = 7
+def program PROG0 = % polluter-prog polluter-arg
+  -stdin "polluter-program-stdin"
+def program PROG1 = @ PROG0 more
+def string STR1 = polluted
+[act]
+@ PROG1 polluter-act-arg
+'''
 
 
 def _target_tag(s):
@@ -570,8 +601,9 @@ def oracle(plan, hist):
     T = plan['procs']['T']
     target = [s for s in hist['spawns'] if s['tag'] == 'T']
     if pk == 'act_null':
-        if hist['spawns']:
-            bad('null_actor_starts_nothing', [], [s['tag'] for s in hist['spawns']])
+        own = [s for s in hist['spawns'] if s['raw_tag'] != 'polluter-prog']
+        if own:
+            bad('null_actor_starts_nothing', [], [s['tag'] for s in own])
         if ident != 'PASS':
             bad('null_actor_outcome', 'PASS', ident)
         return V
@@ -684,6 +716,8 @@ def _probes(plan, hist):
             pr['setup_stdin_from_program'] = 1
         if plan.get('second_use'):
             pr['second_use_of_program_symbol'] = 1
+        if plan.get('after_polluter'):
+            pr['after_polluting_case_in_a_suite'] = 1
         if plan['cd']:
             pr['cd_before_use'] = 1
         if plan['procs']['T']['exit'] == 255 and pk == 'act_command_line':
